@@ -32,6 +32,7 @@ type c11Watch struct {
 	limit  time.Duration
 	heap   uint64
 	start  time.Time
+	pre    string
 }
 
 func c11StartWatch(sc *core.Scenario) *c11Watch {
@@ -111,4 +112,27 @@ func (w *c11Watch) abort(oracle, detail string) {
 	}
 	fmt.Fprintf(os.Stderr, "C11 watchdog: run idx=%d seed=%d: %s: %s -- exiting with status 3\n", w.idx, w.sc.Seed, oracle, detail)
 	os.Exit(3)
+}
+
+// PreWrite stores the scenario as a replay file before a step that may end the process
+// without a chance to report (fatal runtime error); PreWriteDone removes it again when
+// the step was survived.
+func (w *c11Watch) PreWrite(oracle, detail string) {
+	dir := os.Getenv("VERIF_REPLAY_DIR")
+	if dir == "" {
+		return
+	}
+	w.pre = filepath.Join(dir, fmt.Sprintf("C11-%d-precrash.json", w.sc.Seed))
+	v := &core.Violation{Property: "C11", Oracle: oracle, Detail: detail, Sig: oracle + ": deep nesting", Step: -1}
+	if core.WriteReplay(w.pre, w.sc, v, nil) != nil {
+		w.pre = ""
+	}
+	fmt.Fprintf(os.Stderr, "C11: run idx=%d seed=%d sends nesting beyond the safe depth; scenario saved as %s\n", w.idx, w.sc.Seed, w.pre)
+}
+
+func (w *c11Watch) PreWriteDone() {
+	if w.pre != "" {
+		os.Remove(w.pre)
+		w.pre = ""
+	}
 }
